@@ -255,13 +255,16 @@ def h_history(ctx, pool, n_calls, first=None, sym=True, sigmas=(2, 3, 4, 7, 12))
 
 
 FAILING_FIRST = ["sub:0:0", "sub:1:1", "sub:8:1", "simp:2", "simp:3", "ev:0", "ev:7", "qr:2", "build:1", "build:2", "build:3"]
+# substitutions that put the POINT type [c - sigma, c - sigma] under a Div make TypeChecker.walk_div divide a float by a symbolic int
+# (a floating-point solver query that times out): those calls run with concrete sigma only (direct shards)
+CONCRETE_ONLY = {"sub:0:0", "sub:0:3", "build:3"}
 POOLS = {
     "sub:0:0": ["sub:0:0", "sub:0:3", "sub:4:0", "sub:4:3", "simp:0", "type:4", "build:0"],
     "sub:1:1": ["sub:1:1", "sub:1:3", "sub:8:1", "sub:9:1", "simp:1", "type:8", "build:1"],
     "sub:8:1": ["sub:8:1", "sub:8:3", "sub:1:1", "sub:1:2", "simp:8", "build:2", "fl:0"],
     "simp:2": ["simp:2", "simp:9", "sub:2:2", "sub:9:3", "fv:2", "qr:5", "build:1"],
-    "simp:3": ["simp:3", "simp:0", "simp:9", "sub:0:2", "type:0", "fl:0", "simp:4"],
-    "ev:0": ["ev:0", "ev:9", "ev:5", "ev:6", "simp:0", "sub:0:0", "simp:9"],
+    "simp:3": ["simp:3", "simp:0", "sub:0:2", "simp:9", "type:0", "fl:0", "simp:4"],
+    "ev:0": ["ev:0", "ev:9", "ev:5", "simp:0", "ev:6", "sub:0:0", "simp:9"],
     "ev:7": ["ev:7", "ev:9", "ev:5", "ev:6", "simp:9", "sub:9:2", "qr:6"],
     "qr:2": ["qr:2", "qr:5", "qr:6", "sub:2:2", "simp:2", "fv:5", "sub:9:3"],
     "build:1": ["build:1", "build:2", "sub:8:1", "sub:1:1", "type:8", "simp:8", "build:0"],
@@ -276,9 +279,12 @@ def shards(tier, seed):
     deep = tier != "quick"
     n = 4 if deep else 3
     for f in FAILING_FIRST:
-        out.append(dict(name=f"sym-first-{f.replace(':', '_')}", fn="h_history", kwargs=dict(pool=POOLS[f][:7 if deep else 5], n_calls=n, first=f),
+        if f in CONCRETE_ONLY:
+            continue
+        pool = [c for c in POOLS[f] if c not in CONCRETE_ONLY][:6 if deep else 4]
+        out.append(dict(name=f"sym-first-{f.replace(':', '_')}", fn="h_history", kwargs=dict(pool=pool, n_calls=n, first=f),
                         budget=900 if deep else 100, per_path=30))
-    out.append(dict(name="sym-nofail", fn="h_history", kwargs=dict(pool=NOFAIL_POOL[:13 if deep else 6], n_calls=n - 1), budget=900 if deep else 100,
+    out.append(dict(name="sym-nofail", fn="h_history", kwargs=dict(pool=[c for c in NOFAIL_POOL if c not in CONCRETE_ONLY][:12 if deep else 6], n_calls=n - 1), budget=900 if deep else 100,
                     per_path=30))
     # concrete sigma, real dict, direct engine: every call of the history is a choice
     for f in FAILING_FIRST:
